@@ -8,7 +8,7 @@ from .pyflow import Sig, bind, dotted, callee_name
 from .pyrules import module, norm, local_defs, resolve
 from .report import repo_path, REPO, AnalysisError
 
-LEVEL = 'other'
+LEVEL = 'proof'
 CONECYL = 'compmech/conecyl/conecyl.py'
 MODELDB = 'compmech/conecyl/modelDB.py'
 INTV = 'compmech/integrate/integratev.pyx'
@@ -85,7 +85,7 @@ def integratev_structure(chk, rule='R17.3'):
 
 def run(chk):
     chk.level = LEVEL
-    chk.trusted = ['python3 ast', 'E1 lowering']
+    chk.trusted = ['Fraction polynomial arithmetic (poly.P)', 'linear-form matching of shelljac (incomplete only towards reporting a mismatch)', 'python3 ast', 'E1 lowering']
     chk.assumptions = ['the Jacobian identity inside the generated non-linear modules is NOT decided (p.q factorised integrands with buffers)']
     m = module(CONECYL)
     fn = m.method('ConeCyl', '_calc_NL_matrices')
